@@ -81,7 +81,7 @@ ENV = {"ASAN_OPTIONS": "detect_leaks=0:abort_on_error=0:halt_on_error=1:allocato
 def risky(case, rest):
     """Run the case in a forked child?  Exactly those expected to end abnormally (a miss only costs
     a restart of the harness: the culprit is then re-run isolated)."""
-    if case.origin != "gen" or case.cls.startswith(("hang-shape", "ub-int")):
+    if case.origin != "gen" or case.cls.startswith(("hang-shape", "ub-int", "ub-date")):
         return True
     w = rest.split(" ")
     try:
@@ -94,6 +94,8 @@ def risky(case, rest):
             return py_atoi_ub(bytes.fromhex(w[1]) if w[1] != "-" else b"")
         if w[0] == "CHKSUM":
             return int(w[1]) % 4 != 0 and len(w[2]) >= 16
+        if w[0] == "DTPARSE":
+            return bool(py_dt_ub({"ts": 22, "time": 23, "date": 24}[w[1]], bytes.fromhex(w[2]) if w[2] != "-" else b""))
     except Exception:
         return True
     return False
@@ -212,6 +214,9 @@ def postprocess(case, r):
             return r + " [" + fn + "]"
     if r.startswith("CRASH ubsan f8utils.hpp") and ("signed integer overflow" in r or "left shift of" in r):
         return "UB fast_atoi"
+    if r.startswith("CRASH ubsan field.hpp") and ("out of bounds for type 'int [13]'" in r or "left shift of" in r
+                                                  or "signed integer overflow" in r):
+        return "UB datetime"
     if r.startswith("CRASH ubsan message.hpp") and "misaligned address" in r and "uint32_t" in r:
         return "UB calc_chksum"
     m = re.match(r"EXC MissingRepeatingGroupField -(\d+)$", r)
@@ -287,10 +292,87 @@ def py_atoi_ub(txt):
     return False
 
 
+DT_TS, DT_TIME, DT_DATES = 22, 23, (21, 24, 25)
+MON_DAYS = [0, 31, 59, 90, 120, 151, 181, 212, 243, 273, 304, 334, 365]
+
+
+def _i32(x):
+    return -2 ** 31 <= x < 2 ** 31
+
+
+def _pd(chars):
+    ub, r = False, 0
+    for ch in chars:
+        if ub or r < 0:
+            return True, r
+        c = ch - 256 if ch >= 128 else ch
+        r = r * 10 + (c - 48)
+    return ub, r
+
+
+def _i64(x):
+    return -2 ** 63 <= x < 2 ** 63
+
+
+def _tte_ub(year, mon, mday, hour, mi, sec, acc=0):
+    if mon < 0 or mon > 12:
+        return True
+    ty = 0 if year == 0 else year - 70
+    t1 = MON_DAYS[mon] + (0 if mday == 0 else mday - 1) + ty * 365
+    q = abs(ty + 2) // 4 * (1 if ty + 2 >= 0 else -1)
+    t2 = t1 + q
+    tdays = t2 - 1 if (year != 0 and abs(year) % 4 == 0 and mon < 2) else t2
+    e = (tdays * 86400 + hour * 3600 + mi * 60 + sec) * 10 ** 9     # seconds in time_t (repair 4d1009d), ticks in int64
+    return not (all(_i32(x) for x in (ty * 365, t1, t2, tdays)) and _i64(e) and _i64(acc + e))
+
+
+def py_dt_ub(ft, v):
+    """Bounds.dt_ub: True / False, None = reads beyond the text (not determined)."""
+    s = v.split(b"\0")[0]
+    n = len(s)
+    if n == 0 or s == b"now":
+        return False
+    if ft == DT_TS:
+        if n < 17:
+            return None
+        ps = [_pd(s[a:a + k]) for a, k in ((0, 4), (4, 2), (6, 2), (9, 2), (12, 2), (15, 2))]
+        ub = any(u for u, _ in ps)
+        ms = 0
+        if n == 21:
+            u7, ms = _pd(s[18:21])
+            ub = ub or u7
+        if n in (17, 21) and not ub:
+            ub = _tte_ub(ps[0][1] - 1900, ps[1][1] - 1, ps[2][1], ps[3][1], ps[4][1], ps[5][1], ms * 10 ** 6)
+        return ub
+    if ft == DT_TIME:
+        if n < 8:
+            return None
+        ub = any(_pd(s[a:a + 2])[0] for a in (0, 3, 6))
+        return ub or (n == 12 and _pd(s[9:12])[0])
+    if ft in DT_DATES:
+        if n < 6:
+            return None
+        (u1, y), (u2, mo) = _pd(s[0:4]), _pd(s[4:6])
+        u3, d = _pd(s[6:8]) if n == 8 else (False, 1)
+        return u1 or u2 or u3 or _tte_ub(y - 1900, mo - 1, d, 0, 0, 0)
+    return False
+
+
+def py_atoi_u32(txt):
+    r = 0
+    for ch in txt.split(b"\0")[0]:
+        r = (r * 10 + (ch - 256 if ch >= 128 else ch) - 48) % 2 ** 32
+    return r
+
+
 def admissible(meta, data, allowed=None, ub_ok=False):
     """Generator-side filter (see ASSUMPTIONS): typed texts unchanged or plain digits, no
     uninitialised tag read, no fast_atoi UB unless the case is about it."""
     toks = tokens(data)
+    if len(toks) > 1 and py_atoi_u32(toks[1][1]) >= 2 ** 31:
+        # BodyLength >= 2^31 is stored as a negative int; the codec model keeps texts and re-renders
+        # "-381" through fast_atoi (dump differs: "-2619"): not this property's subject
+        return False
     for i, (tag, val) in enumerate(toks):
         if not tag or len(tag) > 12 or i < 3:       # 8, 9, 35 are not built from their text by decode
             continue
@@ -304,6 +386,8 @@ def admissible(meta, data, allowed=None, ub_ok=False):
                 return False
             if ft == 2 and f != 9 and i + 1 < len(toks) and len(toks[i + 1][0]) > len(tag):
                 return False
+        elif ub_ok and py_dt_ub(ft, v) is True:
+            continue
         elif allowed is not None and (tag, val) not in allowed:
             return False
     # a Length field directly followed by bytes that are not a token: the fixed-width extractor sees them
@@ -569,6 +653,17 @@ def gen_schema(rng, tier, meta, px, cs):
             if re.match(rb"\d{%d,}" % (len(str(lf)) + 1), data_v):
                 continue
         add(refix(w[:i] + tok + w[i:]), "data-pair")
+    # the fixed-width extractor at its limit: val_sz = 2047 is copied, 2048 is refused
+    for ln in (2046, 2047, 2048, 2049):
+        for owner, lf, df in pairs[:k(2, 6)]:
+            mt = owner if owner in meta.msgs else rng.choice(types)
+            mt, hdr, body, trl, w = valid(mtype=mt)
+            tgt = {"header": hdr, "trailer": trl}.get(owner, body)
+            tgt[:] = [x for x in tgt if x.fnum not in (lf, df)]
+            w = wire(meta, mt, hdr, body, trl)
+            tok = b"%d=%d\x01%d=%s\x01" % (lf, ln, df, b"q" * ln)
+            i = w.index(SOH, w.index(b"\x0135=") + 1) + 1 if owner == "header" else len(w) - 7
+            add(refix(w[:i] + tok + w[i:]), "data-limit-%d" % ln)
 
     # -- encode: one string field of growing size around the output[] boundary
     big = None
@@ -605,6 +700,50 @@ def gen_schema(rng, tier, meta, px, cs):
                     b2.append(G.Fld(s_.fnum, b"r" * sz))
                 w = wire(meta, mt, hdr, b2, trl)
                 cs.append(Case("%sREENC s %s" % (px, w.hex()), "reenc"))
+
+    # -- UB in the date/time parsers inside otherwise valid messages (SendingTime is in every header)
+    ts_bad = (b"20390101-00:00:00", b"20380119-03:14:08.000", b"20239901-00:00:00.000", b"20230001-00:00:00.000",
+              b"2023-101-00:00:00.000", b"99999999-99:99:99.999", b"20231401-00:00:00", b"+0230101-00:00:00.000",
+              b"20230101-0/:00:00", b"20230101 00:00:00.00/")
+    date_bad = (b"20390101", b"20239901", b"20230001", b"203901", b"20231401", b"2023/101", b"\xff\xff\xff\xff\xff\xff\xff\xff", b"zzzzzz")
+    time_bad = (b"/0:00:00", b"00:-0:00", b"00:00:+0.000", b"00:00:00./00")
+    n = 0
+    for _ in range(k(60, 300)):
+        mt, hdr, body, trl, w = valid(rich)
+        cands = []
+        for owner, fs in (("header", hdr), (mt, body)):
+            for f in fs:
+                t = meta.trait(owner, f.fnum)
+                ft = meta.fields.get(f.fnum, (0,))[0]
+                if t is not None and f.elems is None and ft in (DT_TS, DT_TIME) + DT_DATES:
+                    cands.append((f, ft))
+        if not cands:
+            continue
+        f, ft = rng.choice(cands)
+        txt = rng.choice(ts_bad if ft == DT_TS else time_bad if ft == DT_TIME else date_bad)
+        if py_dt_ub(ft, txt) is not True:
+            continue
+        f.val = txt
+        if add(wire(meta, mt, hdr, body, trl), "ub-date", mode="s", ub_ok=True):
+            n += 1
+        if n >= k(14, 80):
+            break
+    for kind, ft, texts in (("ts", DT_TS, ts_bad + (b"20230101-00:00:00.000", b"19700101-00:00:00", b"20380119-03:14:07", b"20231301-00:00:00",
+                                                     b"20230101-00:00:00.0000", b"now", b"")),
+                            ("time", DT_TIME, time_bad + (b"23:59:59.999", b"00:00:00", b"99:99:99", b"now", b"12:00:00.5")),
+                            ("date", 24, date_bad + (b"20230101", b"202301", b"20371231", b"20380119", b"20380120", b"19700101", b"20231301"))):
+        for txt in texts:
+            if py_dt_ub(ft, txt) is not None:
+                cs.append(Case(px + "DTPARSE %s %s" % (kind, txt.hex() or "-"), "dtparse"))
+    for _ in range(k(30, 200)):
+        kind, ft, ln = rng.choice((("ts", DT_TS, 17), ("ts", DT_TS, 21), ("time", DT_TIME, 8), ("time", DT_TIME, 12), ("date", 24, 8), ("date", 24, 6)))
+        base = {17: b"20230615-12:30:45", 21: b"20230615-12:30:45.123", 8: b"12:30:45" if kind == "time" else b"20230615",
+                12: b"12:30:45.123", 6: b"202306"}[ln]
+        b2 = bytearray(base)
+        for _ in range(rng.choice((1, 1, 2))):
+            b2[rng.randrange(len(b2))] = rng.choice(b"0123456789/:-+ 9\xff")
+        if py_dt_ub(ft, bytes(b2)) is not None:
+            cs.append(Case(px + "DTPARSE %s %s" % (kind, bytes(b2).hex()), "dtparse"))
 
     # -- site probes
     for txt in (b"0", b"7", b"2147483599", b"2147483600", b"2147483647", b"2147483648", b"4294967295", b"99999999999999",
@@ -757,6 +896,23 @@ def c_atoi_ub(case, r, m):
     return False
 
 
+def c_datetime_ub(case, r, m):
+    meta, w = _parts(case)
+    if r != "UB datetime":
+        return False
+    if w[0] == "DTPARSE":
+        return py_dt_ub({"ts": 22, "time": 23, "date": 24}[w[1]], bytes.fromhex(w[2]) if w[2] != "-" else b"") is True
+    meta, data = _dec_bytes(case)
+    if data is None:
+        return False
+    for tag, val in tokens(data):
+        if tag and len(tag) < 12:
+            ft = meta.fields.get(int(tag) % 65536, (None,))[0]
+            if ft in (DT_TS, DT_TIME) + DT_DATES and py_dt_ub(ft, val) is True:
+                return True
+    return False
+
+
 def c_chksum_align(case, r, m):
     meta, w = _parts(case)
     return r == "UB calc_chksum" and w[0] == "CHKSUM" and int(w[1]) % 4 != 0 and len(w[2]) // 2 >= 8
@@ -764,7 +920,7 @@ def c_chksum_align(case, r, m):
 
 CLASSIFIERS = {"value-ge-capacity": c_value_overflow, "header-token-ge-capacity": c_header_overflow,
                "encoded-size-gt-output": c_encode_overflow, "group-hang-shape": c_group_hang,
-               "fast-atoi-ub": c_atoi_ub, "chksum-misaligned": c_chksum_align}
+               "fast-atoi-ub": c_atoi_ub, "datetime-parse-ub": c_datetime_ub, "chksum-misaligned": c_chksum_align}
 
 
 def extra_search(rng, seeds, tier):
